@@ -131,7 +131,7 @@ class C17(EngineCheck):
     def extra(self, tier, seed, stats):
         shard, nshards = getattr(self, 'shard', (0, 1))
         n_real = 30 if tier == 'quick' else 40
-        n_b = 8 if tier == 'quick' else 12
+        n_b = 14 if tier == 'quick' else 20
         self._real_sample(tier, seed, stats, n_real)
         if shard % 4 == 0:
             self._registry_states(tier, seed + shard, stats, n_b)
@@ -208,13 +208,21 @@ class C17(EngineCheck):
         stats.extra['real_pool_inconclusive'] = stats.extra.get('real_pool_inconclusive', 0) + inconclusive
 
     def _registry_states(self, tier, seed, stats, n):
-        cases = self._draw_programs(seed + 29, n, ('switch', 'oneof'), False)
+        cases = self._draw_programs(seed + 29, n, ('switch', 'oneof', 'rec', 'default'), False)
         progs = []
-        for c in cases:
+        for k, c in enumerate(cases):
             p = c['program']
+            # exactly ONE reachable node needs a pool (all others are coroutines), preferably a node that is reached
+            # lazily (one-of candidate, switch case) or a recurrent destination: the up-front pool validation must
+            # account for such nodes too
+            reach = sorted(S.reachable(p), key=lambda x: int(x[1:]))
+            cons = S.consumers(p)
+            lazy = [n for n in reach if any(r in ('cand', 'case', 'rec') for _, _, _, r in cons[n])]
+            pool_nodes = lazy if lazy and k % 3 != 2 else reach
+            target = pool_nodes[(seed + 7 * k) % len(pool_nodes)]
             for n_ in p['nodes']:
-                if n_['mode'] == 'gated':
-                    n_['mode'] = 'coro'
+                n_['mode'] = 'coro'
+            S.node_index(p)[target]['mode'] = 'process' if k % 2 else 'thread'
             progs.append({'program': p, 'variant': c['variant']})
         d = tempfile.mkdtemp(prefix='vk_c17b_')
         checked = 0
